@@ -112,18 +112,31 @@ func (p *RawParams) AddUpload(upload Upload, key, path string) *gqlerror.Error {
 		if ptr == nil {
 			return gqlerror.Errorf("path is missing \"variables.\" prefix, key: %s, path: %s", key, path)
 		}
-		if index, parseNbrErr := strconv.Atoi(p); parseNbrErr == nil {
-			if last {
-				ptr.([]any)[index] = upload
-			} else {
-				ptr = ptr.([]any)[index]
+		// Dispatch on the container the path has reached rather than on the shape
+		// of the segment: the path comes from the client, so a segment that does
+		// not fit the container is a client error, not a reason to panic.
+		switch container := ptr.(type) {
+		case []any:
+			index, parseNbrErr := strconv.Atoi(p)
+			if parseNbrErr != nil || index < 0 || index >= len(container) {
+				return gqlerror.Errorf("invalid operations paths for key %s, path: %s", key, path)
 			}
-		} else {
 			if last {
-				ptr.(map[string]any)[p] = upload
+				container[index] = upload
 			} else {
-				ptr = ptr.(map[string]any)[p]
+				ptr = container[index]
 			}
+		case map[string]any:
+			if last {
+				if container == nil {
+					return gqlerror.Errorf("invalid operations paths for key %s, path: %s", key, path)
+				}
+				container[p] = upload
+			} else {
+				ptr = container[p]
+			}
+		default:
+			return gqlerror.Errorf("invalid operations paths for key %s, path: %s", key, path)
 		}
 	}
 
